@@ -710,11 +710,3 @@ func TestC12_CodeImmutable(t *testing.T) {
 		Exec: c12Exec,
 	})
 }
-
-// pstSnapOrInit returns the recorded initial snapshot, recording s first if none is stored.
-func (e *c12Env) pstSnapOrInit(s string) string {
-	if e.pstSnap == "" {
-		e.pstSnap = s
-	}
-	return e.pstSnap
-}
